@@ -243,6 +243,14 @@ def _single_sweep(acc, shard, nshards, seed, tier):
         for ws in [" ", "\t", "\n ", "\x00", "\x7f", "\x85"]:
             variants.append((b, ws + b + ws, "whitespace"))
             variants.append((b, b[:9] + ws.strip(" ") + b[9:] if ws.strip(" ") else b, "control-chars"))
+    # spelling of percent-escapes where a heuristic reads the text: the marker of a routing fragment, an index page, an AMP suffix, a tracking key
+    for b, v in [("https://lemonde.fr/#/path/is/here", "https://lemonde.fr/#%2Fpath/is/here"), ("https://lemonde.fr/#/path/is/here", "https://lemonde.fr/#%2fpath%2Fis/here"),
+                 ("http://a.com/app#!/inbox", "http://a.com/app#%21/inbox"), ("http://a.com/app#!inbox", "http://a.com/app#%21inbox"),
+                 ("http://a.com/x/index.html", "http://a.com/x/%69ndex.html"), ("http://a.com/x/index.html", "http://a.com/x/index%2Ehtml"),
+                 ("http://a.com/x/amp/", "http://a.com/x/%61mp/"), ("http://a.com/x.amp", "http://a.com/x%2Eamp"),
+                 ("http://a.com/x?utm_source=t&b=1", "http://a.com/x?%75tm_source=t&b=1"), ("http://a.com/x?utm_source=t&b=1", "http://a.com/x?utm%5Fsource=t&b=1"),
+                 ("http://a.com/x?b=1&a=2", "http://a.com/x?%62=1&a=2")]:
+        variants.append((b, v, "hex-case+escape-raw"))
     for i, (b, v, name) in enumerate(variants):
         if i % nshards != shard:
             continue
